@@ -164,3 +164,165 @@ Proof.
       rewrite (g_live _ _ G x) by lia. reflexivity. }
     rewrite E. apply seq_length.
 Qed.
+
+(* ------------------------------------------------------------------ (3) the exact class of the pinned rule
+   Traces: time-ordered from 0 (chrono), ticks at 0, I, 2I, .. (periodic_from I 0), the peer answers every
+   request in time (in_time T). Ties between an answer and a tick are resolved by the order in the trace,
+   i.e. adversarially. The pinned rule keeps every such session open exactly when I divides T. *)
+Fixpoint chrono (prev : Z) (evs : list hbev) : Prop :=
+  match evs with
+  | [] => True
+  | e :: r => prev <= hbev_time e /\ chrono (hbev_time e) r
+  end.
+
+Fixpoint periodic_from (I m : Z) (evs : list hbev) : Prop :=
+  match evs with
+  | [] => True
+  | HTick t :: r => t = m * I /\ periodic_from I (m + 1) r
+  | HResp _ :: r => periodic_from I m r
+  end.
+
+Definition legacy_sound (I T : Z) : Prop :=
+  forall evs, chrono 0 evs -> periodic_from I 0 evs -> in_time T evs ->
+    l_closed (lhb_run T lhb_init evs) = None.
+
+(* m ticks have been processed, the last p of them since the last answer; prev = instant of the last event *)
+Lemma legacy_run_inv : forall I a, 0 < I -> 0 < a -> forall rest st m p prev,
+  l_closed st = None -> 0 <= p <= m -> 0 <= prev ->
+  (m - p - 1) * I <= l_last st ->
+  (0 < p -> answered (a * I) ((m - p) * I) rest) ->
+  (1 <= m -> (m - 1) * I <= prev) ->
+  chrono prev rest -> periodic_from I m rest -> in_time (a * I) rest ->
+  l_closed (lhb_run (a * I) st rest) = None.
+Proof.
+  intros I a HI Ha rest. induction rest as [|e rest IH]; intros st m p prev Hc Hp Hprev Hl Hans Hm Hch Hper Hin;
+    [exact Hc|].
+  change (lhb_run (a * I) st (e :: rest)) with (lhb_run (a * I) (lhb_step (a * I) st e) rest).
+  destruct e as [t|r0]; cbn [chrono periodic_from in_time hbev_time] in Hch, Hper, Hin.
+  - destruct Hper as [-> Hper]. destruct Hch as [Hpt Hch]. destruct Hin as [Hat Hin].
+    assert (Hpa : p + 1 <= a).
+    { destruct (Z.eq_dec p 0) as [->|Hne]; [lia|].
+      specialize (Hans ltac:(lia)). cbn in Hans. destruct Hans as [Hlt _]. nia. }
+    unfold lhb_step. rewrite Hc.
+    destruct (Z.ltb_spec (a * I) (m * I - l_last st)) as [Hbad|Hok]; [nia|].
+    apply (IH _ (m + 1) (p + 1) (m * I)); cbn [l_closed l_last]; try reflexivity; try lia; try nia; try assumption.
+    intros _. replace ((m + 1 - (p + 1)) * I) with ((m - p) * I) by ring.
+    destruct (Z.eq_dec p 0) as [->|Hne].
+    + replace ((m - 0) * I) with (m * I) by ring. assumption.
+    + specialize (Hans ltac:(lia)). cbn in Hans. tauto.
+  - destruct Hch as [Hpt Hch].
+    unfold lhb_step. rewrite Hc.
+    assert (Hr : (m - 0 - 1) * I <= r0).
+    { destruct (Z.eq_dec m 0) as [->|Hne]; [nia|]. specialize (Hm ltac:(lia)). nia. }
+    apply (IH _ m 0 r0); cbn [l_closed l_last]; try reflexivity; try lia; try assumption.
+Qed.
+
+Lemma legacy_sound_multiple : forall I a, 0 < I -> 0 < a -> legacy_sound I (a * I).
+Proof.
+  intros I a HI Ha evs Hch Hper Hin.
+  apply (legacy_run_inv I a HI Ha evs lhb_init 0 0 0); cbn [lhb_init l_closed l_last]; try reflexivity; try lia; assumption.
+Qed.
+
+Theorem legacy_sound_if_divides : forall I T, 0 < I -> 0 < T -> T mod I = 0 -> legacy_sound I T.
+Proof.
+  intros I T HI HT Hd.
+  assert (E : T = (T / I) * I) by (pose proof (Z.div_mod T I ltac:(lia)); lia).
+  assert (Ha : 0 < T / I) by (destruct (Z_lt_le_dec 0 (T / I)) as [?|Hq]; [assumption|exfalso; nia]).
+  replace T with (T / I * I) by (symmetry; exact E).
+  replace (T / I * I / I) with (T / I) by (rewrite <- E; reflexivity).
+  apply legacy_sound_multiple; assumption.
+Qed.
+
+(* the witness when I does not divide T = a*I + r, 0 < r < I: tick 0 is answered at once; the answers to
+   the ticks I .. (a+1)*I may all arrive later than (a+1)*I (each still within T); the tick at (a+1)*I finds the
+   last answer older than T *)
+Fixpoint upticks (I j : Z) (n : nat) : list hbev :=
+  match n with
+  | O => []
+  | S n' => HTick (j * I) :: upticks I (j + 1) n'
+  end.
+
+Lemma answered_upticks : forall I T s n j, 0 < I ->
+  (j + Z.of_nat n - 1) * I < s + T -> answered T s (upticks I j n).
+Proof.
+  intros I T s n. induction n as [|n IH]; intros j HI H; [exact Logic.I|]. cbn [upticks answered].
+  split; [nia|]. apply IH; [assumption|]. nia.
+Qed.
+
+Lemma in_time_upticks : forall I T n j, 0 < I ->
+  (Z.of_nat n - 1) * I < T -> in_time T (upticks I j n).
+Proof.
+  intros I T n. induction n as [|n IH]; intros j HI H; [exact Logic.I|]. cbn [upticks in_time].
+  split.
+  - apply answered_upticks; [assumption|]. nia.
+  - apply IH; [assumption|]. nia.
+Qed.
+
+Lemma chrono_upticks : forall I n j prev, 0 < I -> prev <= j * I -> chrono prev (upticks I j n).
+Proof.
+  intros I n. induction n as [|n IH]; intros j prev HI H; [exact Logic.I|]. cbn [upticks chrono hbev_time].
+  split; [assumption|]. apply IH; [assumption|nia].
+Qed.
+
+Lemma periodic_upticks : forall I n j, periodic_from I j (upticks I j n).
+Proof.
+  intros I n. induction n as [|n IH]; intros j; [exact Logic.I|]. cbn [upticks periodic_from]. split; [reflexivity|apply IH].
+Qed.
+
+(* with last = 0: ticks up to T are survived, the first tick beyond T closes *)
+Lemma legacy_upticks : forall I T n j st, 0 < I -> 0 <= j ->
+  l_closed st = None -> l_last st = 0 ->
+  (j + Z.of_nat n - 1) * I <= T -> T < (j + Z.of_nat n) * I ->
+  l_closed (lhb_run T st (upticks I j (S n))) = Some ((j + Z.of_nat n) * I).
+Proof.
+  intros I T n. induction n as [|n IH]; intros j st HI Hj Hc Hl Hle Hgt.
+  - cbn [upticks lhb_run fold_left]. unfold lhb_step. rewrite Hc, Hl.
+    destruct (Z.ltb_spec T (j * I - 0)) as [_|Hno]; [cbn; f_equal; lia|cbn in *; nia].
+  - change (upticks I j (S (S n))) with (HTick (j * I) :: upticks I (j + 1) (S n)).
+    change (lhb_run T st (HTick (j * I) :: upticks I (j + 1) (S n)))
+      with (lhb_run T (lhb_step T st (HTick (j * I))) (upticks I (j + 1) (S n))).
+    unfold lhb_step at 1. rewrite Hc, Hl.
+    destruct (Z.ltb_spec T (j * I - 0)) as [Hbad|_]; [nia|].
+    rewrite Nat2Z.inj_succ in *. rewrite (IH (j + 1)); cbn [l_closed l_last]; try reflexivity; try lia; try assumption.
+    f_equal. ring.
+Qed.
+
+Lemma legacy_prefix : forall T rest, 0 < T ->
+  lhb_run T lhb_init (HTick 0 :: HResp 0 :: rest) =
+  lhb_run T {| l_last := 0; l_closed := None; l_sent := [0] |} rest.
+Proof.
+  intros T rest HT. unfold lhb_run. cbn [fold_left]. f_equal.
+  unfold lhb_step, lhb_init. cbn [l_closed l_last l_sent].
+  destruct (Z.ltb_spec T (0 - 0)) as [Hb|_]; [lia|]. reflexivity.
+Qed.
+
+Theorem legacy_unsound_if_not_divides : forall I T, 0 < I -> 0 < T -> T mod I <> 0 -> ~ legacy_sound I T.
+Proof.
+  intros I T HI HT Hnd Hs.
+  pose proof (Z.div_mod T I ltac:(lia)) as D. pose proof (Z.mod_pos_bound T I HI) as M.
+  set (a := T / I) in *. set (r := T mod I) in *.
+  assert (Ha : 0 <= a) by (apply Z.div_pos; lia).
+  set (evs := HTick 0 :: HResp 0 :: upticks I 1 (S (Z.to_nat a))).
+  assert (Hn : Z.of_nat (Z.to_nat a) = a) by (apply Z2Nat.id; assumption).
+  specialize (Hs evs).
+  assert (C : l_closed (lhb_run T lhb_init evs) = Some ((1 + a) * I)).
+  { subst evs. rewrite legacy_prefix by assumption.
+    rewrite (legacy_upticks I T (Z.to_nat a) 1); cbn [l_closed l_last]; try lia; try reflexivity; rewrite ?Hn; try nia.
+    f_equal. }
+  rewrite Hs in C; [discriminate| | |].
+  - subst evs. cbn [chrono hbev_time]. split; [lia|]. split; [lia|]. apply chrono_upticks; lia.
+  - subst evs. cbn [periodic_from]. split; [lia|]. apply periodic_upticks.
+  - subst evs. cbn [in_time answered]. split; [lia|]. apply in_time_upticks; [assumption|].
+    rewrite Nat2Z.inj_succ, Hn. nia.
+Qed.
+
+(* D9, the characterisation: for positive interval and timeout, the pinned rule never closes a session whose peer
+   answers in time  <->  the interval divides the timeout. (In particular it fails for every timeout < interval; the
+   default 30 s / 60 s is inside the sound class.) *)
+Theorem C14_legacy_sound_class : forall I T, 0 < I -> 0 < T -> (legacy_sound I T <-> T mod I = 0).
+Proof.
+  intros I T HI HT. split.
+  - intros Hs. destruct (Z.eq_dec (T mod I) 0) as [E|E]; [assumption|].
+    exfalso. exact (legacy_unsound_if_not_divides I T HI HT E Hs).
+  - apply legacy_sound_if_divides; assumption.
+Qed.
